@@ -4,10 +4,18 @@ import (
 	"encoding/json"
 	"fmt"
 	"os"
+	"strings"
 
+	"verif/corp"
+	"verif/drv"
 	"verif/ev"
+	"verif/gen"
+	"verif/gram"
 )
 
+// doReplay re-runs the single case of a replay file on gocc built from the CURRENT working tree, without the
+// explorer: the grammar is regenerated and compiled unmodified, the one input is fed to the real Scan/Parse and
+// judged by the same oracle. Exit 1 if it still violates the property, 0 if it now holds.
 func doReplay(path string) int {
 	b, err := os.ReadFile(path)
 	if err != nil {
@@ -19,17 +27,97 @@ func doReplay(path string) int {
 		fmt.Fprintln(os.Stderr, err)
 		return 2
 	}
+	fmt.Printf("property %s (%s)\nrecorded violation: %s\n", rp.Property, rp.Kind, rp.What)
 	if f, ok := replays[rp.Kind]; ok {
 		return f(&rp)
+	}
+	task := map[string]string{"lex": "lex", "parse": "parse", "recover": "recover", "actions": "actions"}[rp.Kind]
+	if gj, ok := rp.Case["g"]; ok && task != "" && gj != nil {
+		return replayDriver(&rp, task, gj)
 	}
 	// generic replay: show the recorded case, then re-evaluate the property on the current tree (the failing case is
 	// part of the enumerated family, so the check reports it again if it still fails)
 	c, _ := json.MarshalIndent(rp.Case, "", " ")
-	fmt.Printf("property %s\nrecorded violation: %s\ncase: %s\n", rp.Property, rp.What, c)
+	fmt.Printf("case: %s\n(no single-case replayer for this kind: re-running the quick check)\n", c)
 	f, ok := checks[rp.Property]
 	if !ok {
 		fmt.Fprintln(os.Stderr, "unknown property", rp.Property)
 		return 2
 	}
 	return f("quick")
+}
+
+func replayDriver(rp *ev.Replay, task string, gj any) int {
+	gb, _ := json.Marshal(gj)
+	var g gram.Grammar
+	if err := json.Unmarshal(gb, &g); err != nil {
+		fmt.Fprintln(os.Stderr, "replay file: grammar:", err)
+		return 2
+	}
+	var flags []string
+	if fl, ok := rp.Case["flags"].([]any); ok {
+		for _, f := range fl {
+			flags = append(flags, fmt.Sprint(f))
+		}
+	}
+	t := gen.Build()
+	sw, done := newSweeper(t, "replay")
+	defer done()
+	it := corp.NewItem("replay", &g, flags...)
+	text, _ := rp.Case["grammar"].(string)
+	it.RtImp = strings.Contains(text, "\"verif/rt\"")
+	it.TokImp = strings.Contains(text, "/o/token\"")
+	g.Header = ""
+	c, err := corp.Build(t, sw.pool, "replayb", []*corp.Item{it})
+	defer c.Close()
+	if err != nil {
+		fmt.Println("the grammar's generated code does not build on the current tree:", err)
+		return 1
+	}
+	if !it.GenOK {
+		fmt.Printf("gocc now refuses the grammar (exit %d): %s\n", it.Exit, it.Stdout)
+		return 1
+	}
+	opt := map[string]any{}
+	if in, ok := rp.Case["input"].(string); ok {
+		opt["only_input"] = in
+		fmt.Println("input:", in)
+	}
+	if toks, ok := rp.Case["tokens"].([]any); ok {
+		opt["only_tokens"] = toks
+		fmt.Println("tokens:", toks)
+	} else if task != "lex" {
+		opt["only_tokens"] = []any{}
+	}
+	if m, ok := rp.Case["mode"].(string); ok {
+		opt["mode"] = m
+	}
+	if task == "recover" && rp.Property == "C03" {
+		opt["inject"] = true
+	}
+	fmt.Printf("grammar (as given to gocc):\n%s", it.Text)
+	still := 0
+	err = c.Run(task, 0, opt, 1, func(line []byte) {
+		var o drv.Out
+		if json.Unmarshal(line, &o) != nil {
+			return
+		}
+		switch o.Kind {
+		case "violation":
+			still++
+			fmt.Printf("STILL VIOLATES %s: %s\n", o.Prop, o.What)
+		case "inconsistent":
+			fmt.Println("harness inconsistency:", o.What)
+			still++
+		}
+	})
+	if err != nil {
+		fmt.Println("driver failed:", err)
+		return 1
+	}
+	if still == 0 {
+		fmt.Println("the case now holds on the current tree")
+		return 0
+	}
+	return 1
 }
